@@ -7,7 +7,7 @@ CLAIMED = {
  "C08": dict(cat="exploration", ref="DESIGN.md 3.7",
    text="Seeded search over interleavings of the loader thread, worker processes (incl. retirement/restart), completion callbacks, queue feeders and the consumer, with injected filter failures and consumer abandonment; the real Multiprocessor/CobaMultiprocessor code runs on simulated multiprocessing primitives. Sampling, not proof; right level because the property quantifies over OS schedules that no unit test controls.",
    note="Trusted base: sim/prims.py model of multiprocessing.Queue/Process/Pipe/Event (read off CPython 3.12; tools/stub_fidelity.py applies the same oracle to real spawned processes); parent-side threads are pre-empted at primitive operations and, through sys.monitoring, at planned bytecodes of the functions that share memory between them (legitimate for the declared requires-python >= 3.8); outputs picklable and never None.",
-   tech="deterministic simulation: seeded scheduler over baton-passed threads incl. bytecode-level pre-emption + fault injection (filter raising six exception types, consumer abandon, feeder delay, bounded pipe), multiset/termination oracle"),
+   tech="deterministic simulation: seeded scheduler over baton-passed threads incl. bytecode-level pre-emption + fault injection (filter raising twelve kinds of exception incl. unpicklable / unloadable / huge / falsy ones, consumer abandon, feeder delay, join(timeout) expiring in virtual time and terminate(), bounded pipe), multiset/termination oracle"),
 }
 CLAIMED["C19"] = dict(cat="exploration", ref="DESIGN.md 3.9",
    text="Seeded search over interleavings of 2-5 callers (threads sharing one ConcurrentCacher or processes with one each) at the granularity of lock operations, every shared-array element access, inner-cache operations, getter lines and disk writes, under virtual time, with injected getter/body failures, gzip write errors and torn files followed by a restart phase; invariants (exclusion, single flight, completeness, release) are monitored inside an instrumented inner cache and over the recorded history.",
@@ -23,11 +23,11 @@ CLAIMED["C03"] = dict(cat="exploration", ref="DESIGN.md 3.3",
    tech="deterministic simulation: real Experiment.run on simulated workers under a seeded scheduler + component-failure injection, differential (alone vs together) and history oracles")
 CLAIMED["C07"] = dict(cat="exploration", ref="DESIGN.md 3.6",
    text="Conservation oracle over the recorded history: recording evaluators yield generated rows (ragged/homogeneous keys, nested values, NaN/inf, unicode, newlines, non-string keys) and components carry generated params; the experiment runs without a file on simulated workers under a seeded schedule, with a plain file (in-process or written by simulated workers in schedule-dependent record order), with a .gz file, and interrupted at a record boundary then resumed; interaction rows, indices 1..N and parameter tables must equal what the components produced up to the documented normalisation, and all Results / Result.from_file must agree.",
-   note="Trusted base: as C01; the oracle's normalisation is deliberately lenient (1e-5 float tolerance, list==tuple, int==float, absent==None, keys as str); row values JSON-representable, nested dict keys strings, reserved column names unused; one known finding (all rows of a triple empty) is listed in known_findings.json.",
+   note="Trusted base: as C01; the oracle's normalisation is deliberately lenient (1e-5 float tolerance, nested list==tuple, int==float, absent==None, keys as str) but a top-level sequence must be read back as a tuple (the rewards column aside), as the property states; row values JSON-representable, nested dict keys strings, reserved column names unused; one known finding (all rows of a triple empty) is listed in known_findings.json.",
    tech="deterministic simulation: seeded scheduler over simulated workers + crash at record boundary and restart, conservation oracle against recording components")
 CLAIMED["C02"] = dict(cat="fault_enumeration", ref="DESIGN.md 3.2",
    text="Crash-point enumeration: for each sampled (experiment, configuration, schedule) the finished transaction log (plain or .gz, written by simulated workers so the record order is schedule dependent) is cut at crash offsets and resumed by a freshly built identical experiment with recording evaluators; quick tier: every record boundary, +-1/+-2 bytes, byte before each newline, three interior offsets per record, n in {0,1}; thorough tier additionally enumerates every byte offset 0..len(F) for a quarter of the logs; second-generation crashes and resumes on simulated workers are sampled. Oracle: resumed run returns normally, Result equals the uninterrupted one, no restored triple is evaluated again, no record is written twice, the file is readable afterwards.",
-   note="Trusted base: a crash leaves a byte-prefix of the flushed stream (durability below flush() is out of reach); a crash during the repair of a torn log leaves a byte-prefix of the '<file>.partial' rewrite; simulated multiprocessing as C01; experiments/schedules are sampled, only the crash offset dimension is enumerated (every offset for logs <= 8 KB in a quarter of the thorough runs); one known finding (zero-row triples are re-evaluated) is listed in known_findings.json.",
+   note="Trusted base: a crash leaves a byte-prefix of the flushed stream (durability below flush() is out of reach); a resume killed inside the repair of a torn log is produced by a real forked process that is os._exit()ed before a PRNG-chosen C call inside Experiment._restore (sampled, not enumerated), and additionally modelled as a byte-prefix of the '<file>.partial' rewrite; simulated multiprocessing as C01; experiments/schedules are sampled, only the crash offset dimension is enumerated (every offset for logs <= 8 KB in a quarter of the thorough runs); one known finding (zero-row triples are re-evaluated) is listed in known_findings.json.",
    tech="deterministic simulation with crash-point enumeration: log written under a seeded schedule, every chosen byte-prefix restarted, history oracle over recording evaluators and the resulting file")
 CLAIMED["C12"] = dict(cat="fault_enumeration", ref="DESIGN.md 3.8",
    text="Delivery and disk clauses only. A simulated HTTP transport replaces urlopen(); for every generated payload (adversarial texts with LF/CRLF/lone CR/other Unicode line boundaries and 2-4 byte characters; small tables in common-dialect CSV/ARFF/LibSVM/Manik) the real HttpSource->_byte_it_->DelimSource path is run for EVERY chunk_size 1..len+1 under identity, gzip and deflate content encodings (the whole delivery space of the public API) plus seeded short-read schedules; lines must equal text.splitlines(); tables are additionally parsed by the real readers after delivery. DiskSink->DiskSource round trips (plain/.gz, all batch settings, several writes) must be identical.",
